@@ -540,3 +540,12 @@ Proof.
   - intros a b. destruct (Req_EM_T a b), (Req_EM_T b a); try reflexivity; congruence.
   - intros a b c. destruct (Req_EM_T a b), (Req_EM_T b c), (Req_EM_T a c); try reflexivity; try discriminate; congruence.
 Qed.
+
+(** ---------------------------------------------------------------- reading lock-step runs *)
+Lemma Forall2_map_eq {A B} (R : A -> A -> Prop) (f : A -> B) :
+  (forall a b, R a b -> f a = f b) -> forall l l', Forall2 R l l' -> map f l = map f l'.
+Proof. intros H l l' HF. induction HF; simpl; [reflexivity|]. f_equal; [apply H; assumption | assumption]. Qed.
+
+Lemma Forall2_map_rel {A B} (R : A -> A -> Prop) (Q : B -> B -> Prop) (f : A -> B) :
+  (forall a b, R a b -> Q (f a) (f b)) -> forall l l', Forall2 R l l' -> Forall2 Q (map f l) (map f l').
+Proof. intros H l l' HF. induction HF; simpl; constructor; [apply H; assumption | assumption]. Qed.
